@@ -324,6 +324,9 @@ func c15Fake(c *lib.Ctx) {
 	}
 	tickCk := func() {
 		defer func() { recover() }()
+		if e.job.VerifStatus() != "Running" {
+			return // the real clock's ticker is stopped outside Running (the frozen clock's Stop is a no-op)
+		}
 		e.clock.TickEvery("checkpointing")
 	}
 	ackAll := func(only func(string) bool) {
